@@ -211,6 +211,90 @@ theorem deviation_equivariance (x : Matrix n k K) (hx : x = I.T * x + I.Kc) (N t
       = I.w0 t + (I.H t * I.Sw t)ᵀ * (I.Fi t * I.pe t - (I.T * I.G t)ᵀ * I.r N (t + 1))
     rw [dev_pe I x hx, dev_G I x hx, dev_r I x hx N _ (t + 1) rfl]
 
+/-! ### deviation mode relative to a time-varying steady path (unit root with drift / balanced growth)
+
+With a unit root and a drift the steady state is a PATH `x̄_t` with `x̄_{t+1} = T x̄_t + K` (`xp t` = the path value handed to period
+`t`), not a fixed point.  The deviation run takes the data minus `Z_t x̄_{t+1} + D_t` and starts from `aInit − x̄_0`. -/
+
+def deviationPath (xp : ℕ → Matrix n k K) : Inputs n q w k p K :=
+  { I with Kc := 0, D := fun _ => 0, y := fun t => I.y t - (I.Z t * xp (t + 1) + I.D t), aInit := I.aInit - xp 0 }
+
+theorem devp_state (xp : ℕ → Matrix n k K) (hx : ∀ t, xp (t + 1) = I.T * xp t + I.Kc) (t : ℕ) :
+    ((deviationPath I xp).state t).2 = (I.state t).2 ∧ ((deviationPath I xp).state t).1 = (I.state t).1 - xp t := by
+  induction t with
+  | zero => exact ⟨rfl, rfl⟩
+  | succ t ih =>
+    constructor
+    · show I.Q1f t ((deviationPath I xp).state t).2 = I.Q1f t (I.state t).2
+      rw [ih.1]
+    · show I.T * ((deviationPath I xp).state t).1 + 0 + I.P * I.u0 t
+          + I.Gf t ((deviationPath I xp).state t).2
+            * ((I.y t - (I.Z t * xp (t + 1) + I.D t))
+                - (I.Z t * (I.T * ((deviationPath I xp).state t).1 + 0 + I.P * I.u0 t) + 0 + I.H t * I.w0 t))
+        = I.T * (I.state t).1 + I.Kc + I.P * I.u0 t
+          + I.Gf t (I.state t).2 * (I.y t - (I.Z t * (I.T * (I.state t).1 + I.Kc + I.P * I.u0 t) + I.D t + I.H t * I.w0 t))
+          - xp (t + 1)
+      rw [ih.1, ih.2, hx t]
+      simp only [Matrix.mul_add, Matrix.mul_sub, Matrix.add_mul, add_zero]
+      abel
+
+theorem devp_pe (xp : ℕ → Matrix n k K) (hx : ∀ t, xp (t + 1) = I.T * xp t + I.Kc) (t : ℕ) :
+    (deviationPath I xp).pe t = I.pe t := by
+  show (I.y t - (I.Z t * xp (t + 1) + I.D t))
+      - (I.Z t * (I.T * ((deviationPath I xp).state t).1 + 0 + I.P * I.u0 t) + 0 + I.H t * I.w0 t)
+    = I.y t - (I.Z t * (I.T * (I.state t).1 + I.Kc + I.P * I.u0 t) + I.D t + I.H t * I.w0 t)
+  rw [(devp_state I xp hx t).2, hx t]
+  simp only [Matrix.mul_add, Matrix.mul_sub, add_zero]
+  abel
+
+theorem devp_G (xp : ℕ → Matrix n k K) (hx : ∀ t, xp (t + 1) = I.T * xp t + I.Kc) (t : ℕ) :
+    (deviationPath I xp).G t = I.G t := by
+  show I.Gf t ((deviationPath I xp).state t).2 = I.Gf t (I.state t).2
+  rw [(devp_state I xp hx t).1]
+
+theorem devp_r (xp : ℕ → Matrix n k K) (hx : ∀ t, xp (t + 1) = I.T * xp t + I.Kc) (N : ℕ) :
+    ∀ (d t : ℕ), N - t = d → (deviationPath I xp).r N t = I.r N t := by
+  intro d
+  induction d with
+  | zero =>
+    intro t h
+    rw [Inputs.r_of_ge _ (by omega), Inputs.r_of_ge _ (by omega)]
+  | succ d ih =>
+    intro t h
+    have ht : t < N := by omega
+    rw [Inputs.r_of_lt _ ht, Inputs.r_of_lt _ ht, ih (t + 1) (by omega), devp_pe I xp hx]
+    have hL : (deviationPath I xp).L t = I.L t := by
+      show I.T - I.T * (deviationPath I xp).G t * I.Z t = I.T - I.T * I.G t * I.Z t
+      rw [devp_G I xp hx]
+    rw [hL]
+    rfl
+
+/-- **deviation equivariance along a steady PATH**: same MSEs, gains and prediction errors; predicted, updated and smoothed states
+equal to the level-mode ones minus the path value of their period; identical smoothed shocks — for every period, horizon and
+missing-data pattern.  (`deviation_equivariance` is the case of a constant path.) -/
+theorem deviation_equivariance_path (xp : ℕ → Matrix n k K) (hx : ∀ t, xp (t + 1) = I.T * xp t + I.Kc) (N t : ℕ) :
+    (deviationPath I xp).Q0 t = I.Q0 t ∧ (deviationPath I xp).Q1 t = I.Q1 t
+    ∧ (deviationPath I xp).a0 t = I.a0 t - xp (t + 1) ∧ (deviationPath I xp).a1 t = I.a1 t - xp (t + 1)
+    ∧ (deviationPath I xp).pe t = I.pe t
+    ∧ (deviationPath I xp).a2 N t = I.a2 N t - xp (t + 1) ∧ (deviationPath I xp).u2 N t = I.u2 N t
+    ∧ (deviationPath I xp).w2 N t = I.w2 N t := by
+  have hs := devp_state I xp hx t
+  have hQ0 : (deviationPath I xp).Q0 t = I.Q0 t := by
+    show I.Q0f t ((deviationPath I xp).state t).2 = I.Q0f t (I.state t).2
+    rw [hs.1]
+  have ha0 : (deviationPath I xp).a0 t = I.a0 t - xp (t + 1) := by
+    show I.T * ((deviationPath I xp).state t).1 + 0 + I.P * I.u0 t = I.T * (I.state t).1 + I.Kc + I.P * I.u0 t - xp (t + 1)
+    rw [hs.2, hx t, Matrix.mul_sub]; abel
+  refine ⟨hQ0, (devp_state I xp hx (t + 1)).1, ha0, (devp_state I xp hx (t + 1)).2, devp_pe I xp hx t, ?_, ?_, ?_⟩
+  · show (deviationPath I xp).a0 t + (deviationPath I xp).Q0 t * (deviationPath I xp).r N t = I.a0 t + I.Q0 t * I.r N t - xp (t + 1)
+    rw [ha0, hQ0, devp_r I xp hx N _ t rfl]; abel
+  · show I.u0 t + (I.P * I.Su t)ᵀ * (deviationPath I xp).r N t = I.u0 t + (I.P * I.Su t)ᵀ * I.r N t
+    rw [devp_r I xp hx N _ t rfl]
+  · show I.w0 t + (I.H t * I.Sw t)ᵀ * (I.Fi t * (deviationPath I xp).pe t
+        - (I.T * (deviationPath I xp).G t)ᵀ * (deviationPath I xp).r N (t + 1))
+      = I.w0 t + (I.H t * I.Sw t)ᵀ * (I.Fi t * I.pe t - (I.T * I.G t)ᵀ * I.r N (t + 1))
+    rw [devp_pe I xp hx, devp_G I xp hx, devp_r I xp hx N _ (t + 1) rfl]
+
 /-! ### re-simulation of the measurement block, with the mode flag (`simulators._simulate_measurement(deviation=…)`)
 
 The simulator computes `y = Z ξ + H w + D` in level mode and `y = Z ξ + H w` in deviation mode, always with the matrices of the
@@ -283,6 +367,17 @@ def exJ : Inputs (Fin 2) (Fin 2) (Fin 2) (Fin 1) (fun _ => Fin 2) ℚ :=
 
 /-- the steady-state hypothesis of `deviation_equivariance` is met (`x̄ = K`) -/
 example : ∃ x : Matrix (Fin 2) (Fin 1) ℚ, x = exJ.T * x + exJ.Kc := ⟨exJ.Kc, by show exJ.Kc = (0 : Matrix (Fin 2) (Fin 2) ℚ) * exJ.Kc + exJ.Kc; rw [Matrix.zero_mul, zero_add]⟩
+
+/-- the path of the random walk with drift `exI` (`T = 1`, `K = 1`): `x̄_t = t` -/
+def exPath (s : ℕ) : Matrix (Fin 2) (Fin 1) ℚ := fun _ _ => (s : ℚ)
+
+/-- the path hypothesis of `deviation_equivariance_path` is met by it -/
+example : ∀ t : ℕ, exPath (t + 1) = exI.T * exPath t + exI.Kc := by
+  intro t
+  ext i j
+  show exPath (t + 1) i j = ((1 : Matrix (Fin 2) (Fin 2) ℚ) * exPath t) i j + (1 : ℚ)
+  rw [Matrix.one_mul]
+  simp [exPath]
 
 end nonvacuous
 
